@@ -93,4 +93,37 @@ def absStore (a : Abs) (e : EventRec) : Reply × Abs :=
 
 def absRemove (a : Abs) (id : Bytes) : Abs := { a with live := a.live.filter fun x => x.id != id }
 
+/-- the abstract state a concrete model state stands for -/
+def Abs.of (s : Store) : Abs :=
+  { live := s.db.live.map (·.e), delIds := s.db.delIds, delAddrs := s.db.delAddrs,
+    log := s.log.map (fun x => (x.off, x.e)), «end» := s.end }
+
+/-- `vanish`: the key's own events and the gift wraps naming it are no longer retrievable; markers and log untouched -/
+def absVanish (a : Abs) (pk : Bytes) : Abs :=
+  { a with live := a.live.filter fun e =>
+      !(e.pubkey == pk) && !(e.kind == 1059 && tagsMatch e.tags KEY_P (hexOf pk)) }
+
+def insertByIdE (x : EventRec) : List EventRec → List EventRec
+  | [] => [x]
+  | y :: ys => if bytesLt x.id y.id then x :: y :: ys else y :: insertByIdE x ys
+
+def relogE : List EventRec → Nat → List (Nat × EventRec) × Nat
+  | [], e => ([], e)
+  | x :: xs, e => ((align8 e, x) :: (relogE xs (align8 e + eventLen x)).1, (relogE xs (align8 e + eventLen x)).2)
+
+/-- rebuilding the abstract store: the retrievable events, in id order, appended to a fresh map;
+markers untouched -/
+def absRebuild (a : Abs) : Abs :=
+  { a with live := a.live.foldr insertByIdE [],
+           log := (relogE (a.live.foldr insertByIdE []) 8).1,
+           «end» := (relogE (a.live.foldr insertByIdE []) 8).2 }
+
+/-- one operation of a history on the abstract store -/
+def absOp (a : Abs) : Op → Abs
+  | .store e => (absStore a e).2
+  | .remove id => absRemove a id
+  | .vanish pk => absVanish a pk
+  | .reopen => a
+  | .rebuild => absRebuild a
+
 end Pocket
